@@ -48,6 +48,9 @@ package trie
 //@   let N := len(old(b))
 //@   ensures @C15 chain(heaphas(t.m), heapval(t.m), t, B, O, N)
 //@   ensures @C15 forall x int, c int :: {H0[x][c]} 0 < x && x <= A0 && H0[x][c] ==> heaphas(t.m)[x][c] && heapval(t.m)[x][c] == V0[x][c]
+// what Add creates: every new link leads to a fresh node, and the fresh nodes are the last alloc - A0 nodes of b's path, in order
+//@   ensures @C15 newToFresh(H0, heaphas(t.m), heapval(t.m), A0, alloc)
+//@   ensures @C15 alloc - A0 <= N && forall j int :: {walk(heaphas(t.m), heapval(t.m), t, B, O, j)} N - (alloc - A0) < j && j <= N ==> walk(heaphas(t.m), heapval(t.m), t, B, O, j) == alloc - (N - j)
 //@   ensures @C15 tree(H0, V0, A0, t) ==> tree(heaphas(t.m), heapval(t.m), alloc, t)
 //@   ensures alloc >= A0 && closed(heaphas(t.m), heapval(t.m), alloc)
 //@   ensures forall x ref :: x != nil ==> !isnil(x.m)
@@ -62,6 +65,8 @@ package trie
 //@     invariant @C15 forall x int, c int :: {H0[x][c]} 0 < x && x <= A0 && H0[x][c] ==> heaphas(t.m)[x][c] && heapval(t.m)[x][c] == V0[x][c]
 //@     invariant @C15 chain(heaphas(t.m), heapval(t.m), t, B, O, i) && walk(heaphas(t.m), heapval(t.m), t, B, O, i) == cur
 //@     invariant @C15 tree(H0, V0, A0, t) ==> tree(heaphas(t.m), heapval(t.m), alloc, t)
+//@     invariant @C15 newToFresh(H0, heaphas(t.m), heapval(t.m), A0, alloc)
+//@     invariant @C15 alloc - A0 <= i && forall j int :: {walk(heaphas(t.m), heapval(t.m), t, B, O, j)} i - (alloc - A0) < j && j <= i ==> walk(heaphas(t.m), heapval(t.m), t, B, O, j) == alloc - (i - j)
 //@     decreases len(b)
 
 //@ func Trie.Delete
